@@ -206,6 +206,21 @@ def api_rules(ctx, crate):
             ok = exported(f1, True) and exported(f2, False)
         ctx.ob("R09-5", s.path, "set_env: env::set_var iff env::var(name).is_ok(), else insert into the shell map", ok,
                key="R09-5|%s|split" % s.path, crate=crate.kind)
+        # every way set_env writes a value into the shell map happens only when the name is NOT exported: insert,
+        # get_mut / entry followed by a store, extend ...
+        writes = []
+        for bb, t, c in s.calls():
+            if last_seg(c) in ("insert", "get_mut", "entry", "extend", "insert_entry", "get_or_insert_with") and any(
+                    flow.is_field_named(x, "envs") for a in s.call_args(bb) for x in mir.subexprs(strip_sites(a))):
+                writes.append(bb)
+        exported_false = lambda fs: any(a[0] == "call" and last_seg(a[1]) in ("is_ok", "is_some") and v is False and any(
+            x[0] == "call" and mir.short(x[1]) in ("std::env::var", "std::env::var_os") for x in mir.subexprs(a)) for a, v in fs)
+        bad = [bb for bb in writes if not exported_false(dom_facts(s, bb))]
+        ctx.ob("R09-5", s.path, "every write of set_env into the shell map happens under `the name is not exported`",
+               bool(writes) and not bad, key="R09-5|%s|shell-map-write-unguarded" % s.path,
+               where=s.loc(bad[0]) if bad else "", crate=crate.kind,
+               detail=None if not bad else "after NAME=a; export NAME=b the name is in both stores: a later NAME=c updates the "
+               "shadowed shell copy and the exported value (seen by $NAME and by children) stays b")
     g = crate.fn("shell::Shell::get_env")
     if g is not None:
         ctx.analysed(g)
